@@ -288,6 +288,10 @@ class AsyncClient(base_client.BaseClient):
         for pkt in p.packets[1:]:
             await self._receive_packet(pkt)
 
+        if self.state != 'connected':
+            # the connection was closed while the handshake was processed
+            return
+
         if 'websocket' in self.upgrades and 'websocket' in self.transports:
             # attempt to upgrade to websocket
             if await self._connect_websocket(url, headers, engineio_path):
